@@ -3918,17 +3918,18 @@ class mulgrid(object):
             self.add_node(node(name, midpos))
             sidenodes[nodenames] = self.nodelist[-1]
             return sidenodes, nodenumber
+        boundary_sides = []
         if bisect:
             if bisect == True: direction = None
             else: direction = bisect
             for col in columns:
-                for i in col.bisection_sides(direction):
+                # (columns with more than 4 nodes have no bisection sides: the
+                # refinement is declined below)
+                for i in col.bisection_sides(direction) or []:
                     n1, n2 = col.node[i], col.node[(i + 1) % col.num_nodes]
                     con = self.connection_with_nodes([n1, n2])
                     if con: connections.add(con)
-                    else:
-                        sidenodes, nodenumber = create_mid_node(n1, n2,
-                                                                sidenodes, nodenumber)
+                    else: boundary_sides.append((n1, n2))
         else:
             for col in columns: connections = connections | col.connection
         if bisect_edge_columns != []:
@@ -3937,6 +3938,10 @@ class mulgrid(object):
         columns_plus_edge = set(columns) | set(bisect_edge_columns)
         for con in connections: columns_plus_edge = columns_plus_edge | set(con.column)
         if all([col.num_nodes in [3, 4] for col in columns_plus_edge]):
+            # create midside nodes on boundary sides to be bisected (only now,
+            # so that a declined refinement leaves the geometry untouched):
+            for n1, n2 in boundary_sides:
+                sidenodes, nodenumber = create_mid_node(n1, n2, sidenodes, nodenumber)
             # bisect edge columns if required:
             for col in bisect_edge_columns:
                 for con in col.connection:
